@@ -58,9 +58,42 @@ def _dict_writes(fa: FA, var=None):
     return keys
 
 
+def check_config_not_mutated(ck, R):
+    """A configuration object is the caller's: the same dict is handed to several constructors (the storage
+    section of a cluster, a template reused for two backends).  A constructor that writes an explicit argument
+    back into it makes every later object built from that dict inherit the override (a second backend silently
+    read-only), and makes the dump disagree with the file.  No constructor / factory of the configuration
+    modules mutates an object it received as a parameter."""
+    from .fresh import param_mutations
+    n = 0
+    for mn in ("configuration", "storage", "storage_filesystem", "storage_memory", "storage_null", "storage_base", "runner", "runner_local", "runner_null"):
+        mod = ck.repo.modules.get(mn)
+        if mod is None:
+            continue
+        for cls in mod.all_classes():
+            for name in ("__init__", "from_file", "create"):
+                m = cls.methods.get(name)
+                if m is None:
+                    continue
+                params = [p for p in m.params if p in ("config", "configuration", "cfg", "env_config", "storage_config", "runner_config")]
+                if not params:
+                    continue
+                fa = FA(ck, m)
+                n += 1
+                muts = param_mutations(fa, params)
+                ck.ob(R, fa.key(None, "config-not-mutated"), not muts,
+                      "%s does not modify the configuration object it is given" % m.qual if not muts else
+                      "%s modifies the caller's configuration object (%s): the object is shared (reused for another backend, dumped later), so an explicit "
+                      "argument given once leaks into everything built from that dict afterwards" % (m.qual, muts[0][2]),
+                      fa.where(muts[0][0]) if muts else fa.where())
+    ck.need(n >= 4, "config-not-mutated: only %d constructors with a configuration parameter found" % n)
+
+
 def check(ck):
     from .memo import check_new_memo_tables
     ck.run(check_new_memo_tables, ck, "C18.M1", ('configuration', 'storage', 'storage_filesystem', 'storage_memory'))
+    ck.rule("C18.R5", "constructors never modify the configuration object they are given", 4)
+    ck.run(check_config_not_mutated, ck, "C18.R5")
     R1, R2, R3, R4 = ("C18.R%d" % i for i in range(1, 5))
     ck.rule(R1, "option tables: every documented backend option is read from the configuration and written by to_dict; "
                 "every constructor keyword has a documented key; cluster / repository / environment read and dump the same keys", 10)
